@@ -540,7 +540,18 @@ func (g *sqlGen) payload() *Decl {
 		return d
 	}
 	var d *Decl
-	switch g.r.Intn(8) {
+	switch g.r.Intn(9) {
+	case 8: // a named container defined in terms of itself (no struct on the cycle)
+		d = g.addDecl(&Decl{Name: g.fresh(g.pick("Nesting", "Outline")), Kind: DNamed}, "models.go").Tag("self-recursive-container")
+		switch g.r.Intn(3) {
+		case 0:
+			d.Under = Slice(Ref(d))
+		case 1:
+			d.Under = Map(Basic("string"), Ref(d))
+		default: // mutual: type A []B ; type B map[string]A
+			b := g.addDecl(&Decl{Name: g.fresh(d.Name + "Level"), Kind: DNamed, Under: Map(Basic("string"), Ref(d))}, "models.go")
+			d.Under = Slice(Ref(b))
+		}
 	case 0, 1:
 		d = mkStruct("Payload").Tag("struct")
 	case 2: // named map
